@@ -9,6 +9,7 @@ import Dawgs.Model.C01
 import Dawgs.Model.C01S2
 import Dawgs.Model.C01Chain
 import Dawgs.Model.C01Count
+import Dawgs.Model.C01Limit
 /-! C01 semantic-search driver (suite `c01sem`, also used by C02).
 
 Input: `sem <gseed> <nrandom> <exN> <exE> <kindmap> <params> <cypher sexp> <sql sexp>` — the parsed Cypher model and the REAL emitted
@@ -227,13 +228,120 @@ def compareOn (km : KindMap) (params : List (String × Val)) (q : Cy.Query) (s :
         let ex := if ex.isEmpty && !(bagEq crRev crS) && bagEq crRev srS then ["path-in-reverse-order"] else ex
         .differ ex s!"graph={renderGraph g} cy={(renderRows cr).replace " " "_"} sql={(renderRows sr).replace " " "_"}"
 
+def subBag : List (List RVal) → List (List RVal) → Bool
+  | [], _ => true
+  | x :: xs, ys =>
+    match ys.findIdx? (rowEq x) with
+    | some i => subBag xs (ys.eraseIdx i)
+    | none => false
+
+/-- stage S2L (LIMIT k without ORDER BY): the prediction of `tr_sound_S2L` — against the rows of the BASE query the statement's rows are a
+sub-bag of exactly min(k, number of base rows) rows -/
+def compareCut (km : KindMap) (base : Cy.Query) (k : Nat) (s : Stmt) (g : Graph) : Outcome :=
+  match Cy.eval Cy.Quirks.none g base with
+  | .error w => .unmodelledCy w
+  | .ok (_, crows) =>
+    let cr := crows.map (fun r => r.map (Cy.CVal.toR g km))
+    match Sql.eval (encode km g) s [] with
+    | .error e =>
+      let (c, w) := errClass e
+      if c == "unmodelled" then .unmodelledSql w
+      else if c == "runtime" then .sqlRuntime s!"{w.replace " " "_"} graph={renderGraph g} cy={(renderRows cr).replace " " "_"}"
+      else .sqlOther c s!"{w.replace " " "_"} graph={renderGraph g}"
+    | .ok t =>
+      let sr := t.rows.map (fun r => r.map valToR)
+      if sr.length == min k cr.length && subBag sr cr then .agree
+      else .differ [] s!"graph={renderGraph g} limit={k} base-cy={(renderRows cr).replace " " "_"} sql={(renderRows sr).replace " " "_"}"
+
 def kindMapOf : Sexp → Option KindMap
   | .list (.atom "list" :: xs) => xs.mapM (fun x => match x with
       | .list [.str k, .atom n] => n.toNat?.map (fun i => (k, i))
       | _ => none)
   | _ => none
 
+/-! a reader for the JSON text of a jsonb parameter (`pgtype.JSONB`): objects, arrays, strings with the common escapes, integers and
+decimals, true / false / null — anything else makes the parameter unreadable (`none`), and the case is not evaluated -/
+namespace JsonText
+def isWs (c : Char) : Bool := c == ' ' || c == '\n' || c == '\t' || c == '\r'
+def skipWs : List Char → List Char
+  | c :: cs => if isWs c then skipWs cs else c :: cs
+  | [] => []
+partial def str (acc : List Char) : List Char → Option (String × List Char)
+  | '"' :: rest => some (String.ofList acc.reverse, rest)
+  | '\\' :: c :: rest =>
+    match c with
+    | 'n' => str ('\n' :: acc) rest
+    | 't' => str ('\t' :: acc) rest
+    | 'r' => str ('\r' :: acc) rest
+    | '"' => str ('"' :: acc) rest
+    | '\\' => str ('\\' :: acc) rest
+    | '/' => str ('/' :: acc) rest
+    | _ => none
+  | c :: rest => str (c :: acc) rest
+  | [] => none
+def number (cs : List Char) : Option (Json × List Char) :=
+  let (neg, cs) := match cs with | '-' :: r => (true, r) | _ => (false, cs)
+  let ip := cs.takeWhile Char.isDigit
+  let rest := cs.dropWhile Char.isDigit
+  if ip.isEmpty then none else
+  let (fp, rest) := match rest with
+    | '.' :: r => (r.takeWhile Char.isDigit, r.dropWhile Char.isDigit)
+    | _ => ([], rest)
+  match rest with
+  | 'e' :: _ => none
+  | 'E' :: _ => none
+  | _ =>
+    match (String.ofList (ip ++ fp)).toNat? with
+    | some n => some (.num ⟨if neg then -(n : Int) else (n : Int), fp.length⟩, rest)
+    | none => none
+mutual
+partial def value (cs : List Char) : Option (Json × List Char) :=
+  match skipWs cs with
+  | '{' :: rest => members [] (skipWs rest)
+  | '[' :: rest => elems [] (skipWs rest)
+  | '"' :: rest => (str [] rest).map (fun p => (.str p.1, p.2))
+  | 't' :: 'r' :: 'u' :: 'e' :: rest => some (.bool true, rest)
+  | 'f' :: 'a' :: 'l' :: 's' :: 'e' :: rest => some (.bool false, rest)
+  | 'n' :: 'u' :: 'l' :: 'l' :: rest => some (.null, rest)
+  | cs' => number cs'
+partial def members (acc : List (String × Json)) (cs : List Char) : Option (Json × List Char) :=
+  match cs with
+  | '}' :: rest => some (.obj acc.reverse, rest)
+  | '"' :: rest =>
+    match str [] rest with
+    | some (k, rest) =>
+      match skipWs rest with
+      | ':' :: rest =>
+        match value rest with
+        | some (v, rest) =>
+          match skipWs rest with
+          | ',' :: rest => members ((k, v) :: acc) (skipWs rest)
+          | '}' :: rest => some (.obj ((k, v) :: acc).reverse, rest)
+          | _ => none
+        | none => none
+      | _ => none
+    | none => none
+  | _ => none
+partial def elems (acc : List Json) (cs : List Char) : Option (Json × List Char) :=
+  match cs with
+  | ']' :: rest => some (.arr acc.reverse, rest)
+  | _ =>
+    match value cs with
+    | some (v, rest) =>
+      match skipWs rest with
+      | ',' :: rest => elems (v :: acc) (skipWs rest)
+      | ']' :: rest => some (.arr (v :: acc).reverse, rest)
+      | _ => none
+    | none => none
+end
+def parse (s : String) : Option Json :=
+  match value s.toList with
+  | some (j, rest) => if (skipWs rest).isEmpty then some j else none
+  | none => none
+end JsonText
+
 partial def paramVal : Sexp → Option Val
+  | .list [.atom "pgtype.JSONB", .list [.atom "Bytes", .list [.atom "bytes", .str js]], _] => (JsonText.parse js).map Val.jsonb
   | .atom "nil" => some .null
   | .atom "true" => some (.bool true)
   | .atom "false" => some (.bool false)
@@ -387,7 +495,10 @@ def tieStep (_ : Unit) (ts : List String) : Unit × String :=
       match kindMapOf kmS, ReadCy.query cyS, SqlSexp.stmt sqlS with
       | some km, .ok q, .ok s =>
         -- which stage does the parsed query belong to, and is its Cypher reading the parsed query itself?
-        let stage : Option (String × Bool × Bool) := match C01.ofCy q with
+        let lim := C01.ofCyLimit2 q
+        let stage : Option (String × Bool × Bool) := match lim with
+          | some l => some ("S2L", l.toCy == q, l.base.wf)
+          | none => match C01.ofCy q with
           | some s1 => some ("S1", s1.toCy == q, s1.wf)
           | none => match C01.ofCy2 q with
             | some s2 => some ("S2b", s2.toCy == q, s2.wf)
@@ -405,7 +516,7 @@ def tieStep (_ : Unit) (ts : List String) : Unit × String :=
           if !wf then ((), "outside-fragment not-well-formed-for-" ++ stg) else
           -- the hop's join order is the translator's choice (selectivity heuristic over its Go tree): the real statement must be the
           -- model statement for ONE of the two orders; `dir` records whether it is the order the model's approximation picks
-          let cands := [C01.tr5F (fun _ => false) (fun _ => false) (fun _ => false) true true km q, C01.tr5F (fun _ => true) (fun _ => true) (fun _ => true) true true km q].filterMap id
+          let cands := [C01.tr6F (fun _ => false) (fun _ => false) (fun _ => false) true true true km q, C01.tr6F (fun _ => true) (fun _ => true) (fun _ => true) true true true km q].filterMap id
           match cands with
           | [] => ((), "tie-differs model-translator-rejects-a-translated-query")
           | (st0, ps) :: _ =>
@@ -422,8 +533,12 @@ def tieStep (_ : Unit) (ts : List String) : Unit × String :=
                 let hypB := fun (g : Graph) => if stg == "S1" || stg == "S1c" then C01.graphOKb km g else C01.graphOK2b km g
                 let inHyp := graphs.filter hypB
                 let outHyp := graphs.filter (fun g => !hypB g)
-                let outsIn := inHyp.map (compareOn km [] q s ordered [])
-                let outsOut := outHyp.map (compareOn km [] q s ordered [])
+                -- S2L: the reference semantics refuses a LIMIT that has to choose; the theorem speaks about the base query's rows
+                let cmp := match lim with
+                  | some l => compareCut km l.base.toCy l.k s
+                  | none => compareOn km [] q s ordered []
+                let outsIn := inHyp.map cmp
+                let outsOut := outHyp.map cmp
                 let isAgree := fun (o : Outcome) => match o with | .agree => true | _ => false
                 let isUsql := fun (o : Outcome) => match o with | .unmodelledSql _ => true | _ => false
                 let bad := outsIn.filter (fun o => !(isAgree o || isUsql o))
